@@ -8,7 +8,10 @@ from .model import AnalysisError, Repo
 
 VERIF_DIR = os.path.dirname(os.path.dirname(os.path.abspath(__file__)))
 KNOWN_FINDINGS = os.path.join(VERIF_DIR, "known_findings.txt")
-EVIDENCE_DIR = os.path.join(VERIF_DIR, "evidence")
+# the self-test / seed runs point this elsewhere so that they never touch the
+# evidence written by the registered commands
+EVIDENCE_DIR = os.environ.get("GFAVERIF_EVIDENCE_DIR") or \
+    os.path.join(VERIF_DIR, "evidence")
 
 _FINDING_RE = re.compile(
     r'^finding:\s+property=(C\d+)\s+key=("(?:[^"\\]|\\.)*")\s+(.*)$')
